@@ -86,16 +86,36 @@ theorem wf_execPlan (f : Int → M Int) (p : SeekPlan) (s : VF) (w : DecWF s) (h
       exact w2
 
 /-- the invariant: a seekable handle in a consistent decode state -/
-def SInv (s : VF) : Prop := s.seekable = true ∧ DecWF s
+def SInv (s : VF) : Prop := s.seekable = true ∧ DecWF s ∧ OPENED ≤ s.ready
 
-/-- `m` keeps the invariant -/
-def Pres {α : Type} (m : M α) : Prop := ∀ s, SInv s → SInv (m.run s).2
+/-- what a predicate on handles must satisfy for the preservation proofs below to go through: it speaks about nothing the read / seek
+    machinery writes except through these primitive steps -/
+structure InvOps (I : VF → Prop) : Prop where
+  seekable : ∀ s, I s → s.seekable = true
+  cursor : ∀ s, I s → ∀ o f, I { s with offset := o, fill := f }
+  os : ∀ s, I s → ∀ o, I { s with os := o }
+  pcmoff : ∀ s, I s → ∀ p, I { s with pcm_offset := p }
+  vdSome : ∀ s, I s → ∀ d l, I { s with vd := some d, lapped := l }
+  read : ∀ s, I s → ∀ d p, I { s with vd := some d, pcm_offset := p }
+  vdKeep : ∀ s, I s → ∀ v, (s.vd.isSome = true → v.isSome = true) → ∀ o p, I { s with os := o, vd := v, pcm_offset := p }
+  decodeClear : ∀ s, I s → I (decodeClear.run s).2
+  makeReady : ∀ s, I s → I (makeDecodeReady.run s).2
+  link : ∀ s, I s → ∀ serial link, linkOf s serial = some link → ∀ o,
+    I { s with current_serialno := serial, current_link := (link : Int), os := o, ready := STREAMSET }
+  take : ∀ s, I s → ∀ n, I (readTake s n).2
+  exec : ∀ (f : Int → M Int) p s, I s → (∀ l c o r, p ≠ .viaRaw l c o r) → I ((execPlan f p).run s).2
 
-theorem pres_pure {α : Type} (a : α) : Pres (pure a : M α) := fun _ h => h
+/-- `m` keeps the predicate -/
+def Pres (I : VF → Prop) {α : Type} (m : M α) : Prop := ∀ s, I s → I (m.run s).2
 
-theorem pres_bind {α β : Type} (m : M α) (k : α → M β) (hm : Pres m) (hk : ∀ a, Pres (k a)) : Pres (m >>= k) := by
+section generic
+variable {I : VF → Prop}
+
+theorem pres_pure {α : Type} (a : α) : Pres I (pure a : M α) := fun _ h => h
+
+theorem pres_bind {α β : Type} (m : M α) (k : α → M β) (hm : Pres I m) (hk : ∀ a, Pres I (k a)) : Pres I (m >>= k) := by
   intro s hs
-  show SInv ((StateT.bind m k) s).2
+  show I ((StateT.bind m k) s).2
   unfold StateT.bind
   simp only [bind]
   have := hm s hs
@@ -105,50 +125,35 @@ theorem pres_bind {α β : Type} (m : M α) (k : α → M β) (hm : Pres m) (hk 
       rw [e] at this
       exact hk a s' this
 
-/-- reading the state: the continuation may use that the state it is given is the current one and satisfies the invariant -/
-theorem pres_get_bind {β : Type} (k : VF → M β) (h : ∀ s, SInv s → SInv ((k s).run s).2) : Pres (get >>= k) := by
+/-- reading the state: the continuation may use that the state it is given is the current one and satisfies the predicate -/
+theorem pres_get_bind {β : Type} (k : VF → M β) (h : ∀ s, I s → I ((k s).run s).2) : Pres I (get >>= k) := by
   intro s hs
   exact h s hs
 
-theorem pres_set (s' : VF) (h : SInv s') : Pres (set s' : M Unit) := fun _ _ => h
-theorem pres_modify (f : VF → VF) (h : ∀ s, SInv s → SInv (f s)) : Pres (modify f : M Unit) := fun s hs => h s hs
+theorem pres_set (s' : VF) (h : I s') : Pres I (set s' : M Unit) := fun _ _ => h
+theorem pres_modify (f : VF → VF) (h : ∀ s, I s → I (f s)) : Pres I (modify f : M Unit) := fun s hs => h s hs
 
-theorem pres_ite {α : Type} (c : Prop) [Decidable c] (a b : M α) (ha : Pres a) (hb : Pres b) : Pres (if c then a else b) := by
+theorem pres_ite {α : Type} (c : Prop) [Decidable c] (a b : M α) (ha : Pres I a) (hb : Pres I b) : Pres I (if c then a else b) := by
   split <;> assumption
 
 theorem run_get_bind' {β : Type} (k : VF → M β) (s : VF) : ((get >>= k).run s) = (k s).run s := rfl
+theorem run_modify_bind {β : Type} (f : VF → VF) (k : Unit → M β) (s : VF) : ((modify f >>= k).run s) = (k ()).run (f s) := rfl
 
-theorem pres_decodeClear : Pres decodeClear := by
-  intro s hs
-  exact ⟨hs.1, wf_decodeClear s⟩
+variable (ops : InvOps I)
+include ops
 
-theorem sinv_cursor (s : VF) (h : SInv s) (o f : Int) : SInv { s with offset := o, fill := f } := h
+theorem pres_decodeClear : Pres I decodeClear := fun s hs => ops.decodeClear s hs
+theorem pres_makeDecodeReady : Pres I makeDecodeReady := fun s hs => ops.makeReady s hs
+theorem pres_setCur (c : Cur) : Pres I (setCur c) := pres_modify _ (fun s hs => ops.cursor s hs c.off c.fill)
 
-theorem pres_makeDecodeReady : Pres makeDecodeReady := fun s hs => ⟨by
-  have : (makeDecodeReady.run s).2.seekable = s.seekable := by
-    unfold makeDecodeReady
-    simp only [StateT.run, bind, StateT.bind, get, getThe, MonadStateOf.get, StateT.get, pure, StateT.pure, set, StateT.set]
-    split
-    · rfl
-    · split <;> rfl
-  rw [this]; exact hs.1, wf_makeDecodeReady s hs.2⟩
-
-theorem pres_setCur (c : Cur) : Pres (setCur c) := pres_modify _ (fun s hs => sinv_cursor s hs c.off c.fill)
-
-theorem pres_getNextPage (ph : Phys) (b : Int) : Pres (getNextPage ph b) := by
+theorem pres_getNextPage (ph : Phys) (b : Int) : Pres I (getNextPage ph b) := by
   unfold getNextPage
   apply pres_get_bind
   intro s hs
   simp only []
-  exact pres_bind _ _ (pres_setCur _) (fun _ => pres_pure _) s hs
+  exact pres_bind _ _ (pres_setCur ops _) (fun _ => pres_pure _) s hs
 
-theorem sinv_os (s : VF) (h : SInv s) (o : OStream) : SInv { s with os := o } := h
-theorem sinv_pcmoff (s : VF) (h : SInv s) (p : Int) : SInv { s with pcm_offset := p } := h
-
-theorem sinv_vd_some (s : VF) (h : SInv s) (d : Dec) (l : Bool) : SInv { s with vd := some d, lapped := l } :=
-  ⟨h.1, h.2.1, fun _ => rfl, h.2.2.2⟩
-
-theorem pres_packets : ∀ (f : Nat), Pres (fpPackets f) := by
+theorem pres_packets : ∀ (f : Nat), Pres I (fpPackets f) := by
   intro f
   induction f with
   | zero => unfold fpPackets; exact pres_pure _
@@ -157,26 +162,24 @@ theorem pres_packets : ∀ (f : Nat), Pres (fpPackets f) := by
       apply pres_get_bind
       intro s hs
       simp only []
-      refine (?_ : Pres _) s hs
+      refine (?_ : Pres I _) s hs
       apply pres_ite
-      · exact pres_bind _ _ (pres_set _ (sinv_os s hs _)) (fun _ => pres_pure _)
+      · exact pres_bind _ _ (pres_set _ (ops.os s hs _)) (fun _ => pres_pure _)
       · apply pres_ite
-        · apply pres_bind _ _ (pres_set _ (sinv_os s hs _))
+        · apply pres_bind _ _ (pres_set _ (ops.os s hs _))
           intro _
           split
           · apply pres_ite
             · exact pres_pure _
-            · apply pres_bind _ _ (pres_modify _ (fun v hv => sinv_vd_some v hv _ _))
+            · apply pres_bind _ _ (pres_modify _ (fun v hv => ops.vdSome v hv _ _))
               intro _
               apply pres_ite
-              · exact pres_bind _ _ (pres_modify _ (fun v hv => sinv_pcmoff v hv _)) (fun _ => pres_pure _)
+              · exact pres_bind _ _ (pres_modify _ (fun v hv => ops.pcmoff v hv _)) (fun _ => pres_pure _)
               · exact pres_pure _
           · exact ih
         · exact pres_pure _
 
-theorem sinv_infos (s : VF) (h : SInv s) (i : Array LinkInfo) : SInv { s with infos := i } := h
-
-theorem pres_page (ph : Phys) (readp spanp : Bool) : ∀ (f : Nat), Pres (fpPage ph readp spanp f) := by
+theorem pres_page (ph : Phys) (readp spanp : Bool) : ∀ (f : Nat), Pres I (fpPage ph readp spanp f) := by
   intro f
   induction f with
   | zero => unfold fpPage; exact pres_pure _
@@ -184,7 +187,7 @@ theorem pres_page (ph : Phys) (readp spanp : Bool) : ∀ (f : Nat), Pres (fpPage
       unfold fpPage
       apply pres_ite
       · exact pres_pure _
-      · apply pres_bind _ _ (pres_getNextPage ph (-1))
+      · apply pres_bind _ _ (pres_getNextPage ops ph (-1))
         intro r
         obtain ⟨ret, og⟩ := r
         simp only []
@@ -192,66 +195,53 @@ theorem pres_page (ph : Phys) (readp spanp : Bool) : ∀ (f : Nat), Pres (fpPage
         · exact pres_pure _
         · apply pres_get_bind
           intro s hs
-          refine (?_ : Pres _) s hs
+          refine (?_ : Pres I _) s hs
           apply pres_ite
           · apply pres_ite
             · apply pres_ite
               · exact pres_pure _
-              · apply pres_bind _ _ pres_decodeClear
+              · apply pres_bind _ _ (pres_decodeClear ops)
                 intro _
-                apply pres_ite
-                · exact pres_bind _ _ (pres_modify _ (fun v hv => sinv_infos v hv _)) (fun _ => pres_pure _)
-                · exact pres_pure _
+                have hsk : ¬ ((!s.seekable) = true) := by rw [ops.seekable s hs]; decide
+                rw [if_neg hsk]
+                exact pres_pure _
             · exact ih
           · exact pres_pure _
 
-theorem linkOf_spec (vf : VF) (serial : Int) (link : Nat) (h : linkOf vf serial = some link) : vf.serialnos[link]! = serial := by
-  unfold linkOf at h
-  have := List.find?_some h
-  simpa using this
-
-theorem run_modify_bind {β : Type} (f : VF → VF) (k : Unit → M β) (s : VF) : ((modify f >>= k).run s) = (k ()).run (f s) := rfl
-
-theorem pres_fpAfterPage (ph : Phys) (again : M Int) (ha : Pres again) (og : Page) : Pres (fpAfterPage ph again og) := by
+theorem pres_fpAfterPage (ph : Phys) (again : M Int) (ha : Pres I again) (og : Page) : Pres I (fpAfterPage ph again og) := by
   unfold fpAfterPage
   apply pres_get_bind
   intro s hs
   simp only []
   by_cases hc : s.ready ≠ INITSET ∧ s.ready < STREAMSET
-  · rw [if_pos hc, if_pos hs.1]
+  · rw [if_pos hc, if_pos (ops.seekable s hs)]
     cases hl : linkOf s og.serial with
     | none => exact ha s hs
     | some link =>
         simp only []
         rw [run_modify_bind]
         apply ha
-        have hser := linkOf_spec s og.serial link hl
-        refine ⟨hs.1, ?_, ?_, ?_⟩
-        · intro _
-          refine ⟨by simp, ?_⟩
-          simp [hser]
-        · intro h; exact absurd (show STREAMSET > STREAMSET from h) (by decide)
-        · show STREAMSET ≤ INITSET; decide
+        exact ops.link s hs og.serial link hl _
   · rw [if_neg hc]
-    exact pres_bind _ _ (pres_modify _ (fun v hv => sinv_os v hv _)) (fun _ => ha) s hs
+    exact pres_bind _ _ (pres_modify _ (fun v hv => ops.os v hv _)) (fun _ => ha) s hs
 
-theorem pres_fpPageStep (ph : Phys) (readp spanp : Bool) (again : M Int) (ha : Pres again) : Pres (fpPageStep ph readp spanp again) := by
+theorem pres_fpPageStep (ph : Phys) (readp spanp : Bool) (again : M Int) (ha : Pres I again) : Pres I (fpPageStep ph readp spanp again) := by
   unfold fpPageStep
   apply pres_get_bind
   intro s hs
   simp only []
-  refine (?_ : Pres _) s hs
+  refine (?_ : Pres I _) s hs
   apply pres_ite
   · exact pres_pure _
-  · apply pres_bind _ _ (pres_page ph readp spanp _)
+  · apply pres_bind _ _ (pres_page ops ph readp spanp _)
     intro r
     obtain ⟨rc, og, stop⟩ := r
     simp only []
     apply pres_ite
     · exact pres_pure _
-    · exact pres_fpAfterPage ph again ha og
+    · exact pres_fpAfterPage ops ph again ha og
 
-theorem pres_fetchAndProcess (ph : Phys) (readp spanp : Bool) : ∀ (fuel : Nat), Pres (fetchAndProcess ph readp spanp fuel) := by
+theorem pres_fetchAndProcess (ph : Phys) (readp spanp : Bool) : ∀ (fuel : Nat), Pres I (fetchAndProcess ph readp spanp fuel) := by
   intro fuel
   induction fuel with
   | zero => unfold fetchAndProcess; exact pres_pure _
@@ -259,29 +249,27 @@ theorem pres_fetchAndProcess (ph : Phys) (readp spanp : Bool) : ∀ (fuel : Nat)
       unfold fetchAndProcess
       apply pres_get_bind
       intro s hs
-      refine (?_ : Pres _) s hs
+      refine (?_ : Pres I _) s hs
       apply pres_bind
       · apply pres_ite
-        · exact pres_makeDecodeReady
+        · exact pres_makeDecodeReady ops
         · exact pres_pure _
       · intro r0
         apply pres_ite
         · exact pres_pure _
         · apply pres_get_bind
           intro s2 hs2
-          refine (?_ : Pres _) s2 hs2
+          refine (?_ : Pres I _) s2 hs2
           apply pres_bind
           · apply pres_ite
-            · exact pres_packets _
+            · exact pres_packets ops _
             · exact pres_pure _
           · intro pr
             cases pr with
             | some r => exact pres_pure _
-            | none => exact pres_fpPageStep ph readp spanp _ ih
+            | none => exact pres_fpPageStep ops ph readp spanp _ ih
 
-theorem readTake_seekable (s : VF) (n : Int) : (readTake s n).2.seekable = s.seekable := rfl
-
-theorem pres_readLoop (ph : Phys) (length : Int) : ∀ f, Pres (readFloat.loop ph length f) := by
+theorem pres_readLoop (ph : Phys) (length : Int) : ∀ f, Pres I (readFloat.loop ph length f) := by
   intro f
   induction f with
   | zero => unfold readFloat.loop; exact pres_pure _
@@ -290,11 +278,10 @@ theorem pres_readLoop (ph : Phys) (length : Int) : ∀ f, Pres (readFloat.loop p
       apply pres_get_bind
       intro s hs
       simp only []
-      refine (?_ : Pres _) s hs
+      refine (?_ : Pres I _) s hs
       apply pres_ite
-      · have h2 : SInv (readTake s length).2 := ⟨hs.1, wf_readTake s length hs.2⟩
-        exact pres_bind _ _ (pres_set _ h2) (fun _ => pres_pure _)
-      · apply pres_bind _ _ (pres_fetchAndProcess ph true true _)
+      · exact pres_bind _ _ (pres_set _ (ops.take s hs length)) (fun _ => pres_pure _)
+      · apply pres_bind _ _ (pres_fetchAndProcess ops ph true true _)
         intro r
         apply pres_ite
         · exact pres_pure _
@@ -303,20 +290,16 @@ theorem pres_readLoop (ph : Phys) (length : Int) : ∀ f, Pres (readFloat.loop p
           · exact ih
 
 /-- `ov_read_float` keeps the invariant -/
-theorem pres_readFloat (ph : Phys) (length : Int) : Pres (readFloat ph length) := by
+theorem pres_readFloat (ph : Phys) (length : Int) : Pres I (readFloat ph length) := by
   unfold readFloat
   apply pres_get_bind
   intro s hs
-  refine (?_ : Pres _) s hs
+  refine (?_ : Pres I _) s hs
   apply pres_ite
   · exact pres_pure _
-  · exact pres_readLoop ph length _
+  · exact pres_readLoop ops ph length _
 
-theorem sinv_vd_keep (s : VF) (h : SInv s) (v : Option Dec) (hv : s.vd.isSome = true → v.isSome = true) (o : OStream) (p : Int) :
-    SInv { s with os := o, vd := v, pcm_offset := p } :=
-  ⟨h.1, h.2.1, fun hr => hv (h.2.2.1 hr), h.2.2.2⟩
-
-theorem pres_discard (ph : Phys) (pos : Int) : ∀ (f : Nat) (lb : Int), Pres (pcmSeekTail.discard ph pos f lb) := by
+theorem pres_discard (ph : Phys) (pos : Int) : ∀ (f : Nat) (lb : Int), Pres I (pcmSeekTail.discard ph pos f lb) := by
   intro f
   induction f with
   | zero => intro lb; unfold pcmSeekTail.discard; exact pres_pure _
@@ -330,25 +313,25 @@ theorem pres_discard (ph : Phys) (pos : Int) : ∀ (f : Nat) (lb : Int), Pres (p
       · rw [if_pos hr]
         by_cases htb : packetBlocksize s.infos[s.current_link.toNat]! s.os.packetpeek.2 < 0
         · rw [if_pos htb]
-          exact pres_bind _ _ (pres_set _ (sinv_os s hs _)) (fun _ => ih lb) s hs
+          exact pres_bind _ _ (pres_set _ (ops.os s hs _)) (fun _ => ih lb) s hs
         · rw [if_neg htb]
-          refine (?_ : Pres _) s hs
-          apply pres_bind _ _ (pres_set _ (sinv_pcmoff s hs _))
+          refine (?_ : Pres I _) s hs
+          apply pres_bind _ _ (pres_set _ (ops.pcmoff s hs _))
           intro _
           apply pres_ite
           · exact pres_pure _
           · apply pres_bind _ _ _ (fun _ => ih _)
             apply pres_set
-            apply sinv_vd_keep s hs
+            apply ops.vdKeep s hs
             intro hsome
             cases hv : s.vd with
             | none => rw [hv] at hsome; exact absurd hsome (by decide)
             | some d => cases packetW s.infos[s.current_link.toNat]! s.os.packetpeek.2 <;> rfl
       · rw [if_neg hr]
-        refine (?_ : Pres _) s hs
+        refine (?_ : Pres I _) s hs
         apply pres_ite
         · exact pres_pure _
-        · apply pres_bind _ _ (pres_getNextPage ph (-1))
+        · apply pres_bind _ _ (pres_getNextPage ops ph (-1))
           intro r
           obtain ⟨pr, og⟩ := r
           simp only []
@@ -356,7 +339,7 @@ theorem pres_discard (ph : Phys) (pos : Int) : ∀ (f : Nat) (lb : Int), Pres (p
           · exact pres_pure _
           · apply pres_bind
             · apply pres_ite
-              · exact pres_decodeClear
+              · exact (pres_decodeClear ops)
               · exact pres_pure _
             · intro _
               apply pres_get_bind
@@ -367,60 +350,82 @@ theorem pres_discard (ph : Phys) (pos : Int) : ∀ (f : Nat) (lb : Int), Pres (p
                 | none => exact ih lb s2 hs2
                 | some link =>
                     simp only []
-                    have hser := linkOf_spec s2 og.serial link hl
-                    have h3 : SInv { s2 with current_link := link, ready := STREAMSET, current_serialno := og.serial, os := s2.os.resetSerial og.serial } := by
-                      refine ⟨hs2.1, ?_, ?_, ?_⟩
-                      · intro _
-                        refine ⟨by simp, ?_⟩
-                        simp [hser]
-                      · intro h; exact absurd (show STREAMSET > STREAMSET from h) (by decide)
-                      · show STREAMSET ≤ INITSET; decide
-                    refine (?_ : Pres _) s2 hs2
+                    have h3 := ops.link s2 hs2 og.serial link hl (s2.os.resetSerial og.serial)
+                    refine (?_ : Pres I _) s2 hs2
                     apply pres_bind _ _ (pres_set _ h3)
                     intro _
-                    apply pres_bind _ _ pres_makeDecodeReady
+                    apply pres_bind _ _ (pres_makeDecodeReady ops)
                     intro r3
                     apply pres_ite
                     · exact pres_pure _
-                    · exact pres_bind _ _ (pres_modify _ (fun v hv => sinv_os v hv _)) (fun _ => ih 0)
+                    · exact pres_bind _ _ (pres_modify _ (fun v hv => ops.os v hv _)) (fun _ => ih 0)
               · rw [if_neg h2]
-                exact pres_bind _ _ (pres_set _ (sinv_os s2 hs2 _)) (fun _ => ih lb) s2 hs2
+                exact pres_bind _ _ (pres_set _ (ops.os s2 hs2 _)) (fun _ => ih lb) s2 hs2
 
-theorem sinv_read (s : VF) (h : SInv s) (d : Dec) (p : Int) : SInv { s with vd := some d, pcm_offset := p } :=
-  ⟨h.1, h.2.1, fun _ => rfl, h.2.2.2⟩
-
-theorem pres_skip (ph : Phys) (pos : Int) : ∀ (f : Nat), Pres (pcmSeekTail.skip ph pos f) := by
+theorem pres_skip (ph : Phys) (pos : Int) : ∀ (f : Nat), Pres I (pcmSeekTail.skip ph pos f) := by
   intro f
   induction f with
-  | zero => unfold pcmSeekTail.skip; exact pres_modify _ (fun v hv => sinv_pcmoff v hv _)
+  | zero => unfold pcmSeekTail.skip; exact pres_modify _ (fun v hv => ops.pcmoff v hv _)
   | succ f ih =>
       unfold pcmSeekTail.skip
       apply pres_get_bind
       intro s hs
       simp only []
-      refine (?_ : Pres _) s hs
+      refine (?_ : Pres I _) s hs
       apply pres_ite
       · exact pres_pure _
       · split
         · exact pres_pure _
         · rename_i d hd
-          apply pres_bind _ _ (pres_set _ (sinv_read s hs _ _))
+          apply pres_bind _ _ (pres_set _ (ops.read s hs _ _))
           intro _
           apply pres_ite
-          · apply pres_bind _ _ (pres_fetchAndProcess ph true true _)
+          · apply pres_bind _ _ (pres_fetchAndProcess ops ph true true _)
             intro r
             apply pres_ite
-            · exact pres_bind _ _ (pres_modify _ (fun v hv => sinv_pcmoff v hv _)) (fun _ => ih)
+            · exact pres_bind _ _ (pres_modify _ (fun v hv => ops.pcmoff v hv _)) (fun _ => ih)
             · exact ih
           · exact ih
 
-theorem pres_pcmSeekTail (ph : Phys) (pos : Int) : Pres (pcmSeekTail ph pos) := by
+theorem pres_pcmSeekTail (ph : Phys) (pos : Int) : Pres I (pcmSeekTail ph pos) := by
   unfold pcmSeekTail
-  apply pres_bind _ _ (pres_discard ph pos _ 0)
+  apply pres_bind _ _ (pres_discard ops ph pos _ 0)
   intro r3
   apply pres_ite
   · exact pres_pure _
-  · exact pres_bind _ _ (pres_skip ph pos _) (fun _ => pres_pure _)
+  · exact pres_bind _ _ (pres_skip ops ph pos _) (fun _ => pres_pure _)
+
+/-- `ov_pcm_seek_page` keeps the predicate (every plan but the raw-seek fallback) -/
+theorem inv_pcmSeekPage (ph : Phys) (f : Int → M Int) (pos : Int) (s : VF) (hs : I s)
+    (hnr : ∀ l c o r, planSeekPage ph s.tab pos ≠ .viaRaw l c o r) : I ((pcmSeekPage ph f pos).run s).2 := by
+  unfold pcmSeekPage
+  rw [run_get_bind']
+  split
+  · exact hs
+  · split
+    · exact hs
+    · split
+      · exact hs
+      · exact ops.exec f _ s hs hnr
+
+/-- `ov_pcm_seek` keeps the predicate (every plan but the raw-seek fallback) -/
+theorem inv_pcmSeek (ph : Phys) (f : Int → M Int) (pos : Int) (s : VF) (hs : I s)
+    (hnr : ∀ l c o r, planSeekPage ph s.tab pos ≠ .viaRaw l c o r) : I ((pcmSeek ph f pos).run s).2 := by
+  rw [pcmSeek_run]
+  have h1 := inv_pcmSeekPage ops ph f pos s hs hnr
+  split
+  · exact h1
+  · have h2 := ops.makeReady _ h1
+    split
+    · exact h2
+    · exact pres_pcmSeekTail ops ph pos _ h2
+
+end generic
+
+theorem linkOf_spec (vf : VF) (serial : Int) (link : Nat) (h : linkOf vf serial = some link) : vf.serialnos[link]! = serial := by
+  unfold linkOf at h
+  have := List.find?_some h
+  simpa using this
 
 theorem execPlan_seekable (f : Int → M Int) (p : SeekPlan) (s : VF) (hnr : ∀ l c o r, p ≠ .viaRaw l c o r) :
     ((execPlan f p).run s).2.seekable = s.seekable := by
@@ -434,30 +439,100 @@ theorem execPlan_seekable (f : Int → M Int) (p : SeekPlan) (s : VF) (hnr : ∀
       simp [execPlan, setCur, selectLink, StateT.run, bind, StateT.bind, modify, modifyGet, MonadStateOf.modifyGet, StateT.modifyGet, pure, StateT.pure]
       unfold selectLinkF; split <;> rfl
 
-/-- `ov_pcm_seek_page` keeps the invariant (every plan but the raw-seek fallback) -/
-theorem sinv_pcmSeekPage (ph : Phys) (f : Int → M Int) (pos : Int) (s : VF) (hs : SInv s)
-    (hnr : ∀ l c o r, planSeekPage ph s.tab pos ≠ .viaRaw l c o r) : SInv ((pcmSeekPage ph f pos).run s).2 := by
-  unfold pcmSeekPage
-  rw [run_get_bind']
+theorem makeDecodeReady_seekable (s : VF) : (makeDecodeReady.run s).2.seekable = s.seekable := by
+  unfold makeDecodeReady
+  simp only [StateT.run, bind, StateT.bind, get, getThe, MonadStateOf.get, StateT.get, pure, StateT.pure, set, StateT.set]
   split
-  · exact hs
-  · split
-    · exact hs
-    · split
-      · exact hs
-      · exact ⟨by rw [execPlan_seekable f _ s hnr]; exact hs.1, wf_execPlan f _ s hs.2 hnr⟩
+  · rfl
+  · split <;> rfl
 
-/-- `ov_pcm_seek` keeps the invariant (every plan but the raw-seek fallback) -/
-theorem sinv_pcmSeek (ph : Phys) (f : Int → M Int) (pos : Int) (s : VF) (hs : SInv s)
-    (hnr : ∀ l c o r, planSeekPage ph s.tab pos ≠ .viaRaw l c o r) : SInv ((pcmSeek ph f pos).run s).2 := by
-  rw [pcmSeek_run]
-  have h1 := sinv_pcmSeekPage ph f pos s hs hnr
+theorem makeDecodeReady_ready (s : VF) (h : OPENED ≤ s.ready) : OPENED ≤ (makeDecodeReady.run s).2.ready := by
+  unfold makeDecodeReady
+  simp only [StateT.run, bind, StateT.bind, get, getThe, MonadStateOf.get, StateT.get, pure, StateT.pure, set, StateT.set]
   split
-  · exact h1
-  · have h2 := pres_makeDecodeReady _ h1
-    split
-    · exact h2
-    · exact pres_pcmSeekTail ph pos _ h2
+  · exact h
+  · split
+    · exact h
+    · show OPENED ≤ INITSET; decide
+
+theorem execPlan_ready (f : Int → M Int) (p : SeekPlan) (s : VF) (h : OPENED ≤ s.ready) (hnr : ∀ l c o r, p ≠ .viaRaw l c o r) :
+    OPENED ≤ ((execPlan f p).run s).2.ready := by
+  cases p with
+  | viaRaw l c o r => exact absurd rfl (hnr l c o r)
+  | fail rc c => show OPENED ≤ OPENED; decide
+  | failSel l c o rc => show OPENED ≤ OPENED; decide
+  | land l c o po =>
+      have e : (execPlan f (.land l c o po)).run s =
+          (0, { (selectLinkF l { s with offset := c.off, fill := c.fill }) with os := o, pcm_offset := po }) := by
+        simp [execPlan, setCur, selectLink, StateT.run, bind, StateT.bind, modify, modifyGet, MonadStateOf.modifyGet, StateT.modifyGet, pure, StateT.pure]
+      rw [e]
+      unfold selectLinkF
+      split
+      · show OPENED ≤ STREAMSET; decide
+      · exact h
+
+/-- the consistency invariant meets the requirements -/
+theorem sinvOps : InvOps SInv where
+  seekable := fun _ h => h.1
+  cursor := fun _ h _ _ => h
+  os := fun _ h _ => h
+  pcmoff := fun _ h _ => h
+  vdSome := fun _ h _ _ => ⟨h.1, ⟨h.2.1.1, fun _ => rfl, h.2.1.2.2⟩, h.2.2⟩
+  read := fun _ h _ _ => ⟨h.1, ⟨h.2.1.1, fun _ => rfl, h.2.1.2.2⟩, h.2.2⟩
+  vdKeep := fun _ h _ hv _ _ => ⟨h.1, ⟨h.2.1.1, fun hr => hv (h.2.1.2.1 hr), h.2.1.2.2⟩, h.2.2⟩
+  decodeClear := fun s h => ⟨h.1, wf_decodeClear s, by show OPENED ≤ OPENED; decide⟩
+  makeReady := fun s h => ⟨by rw [makeDecodeReady_seekable]; exact h.1, wf_makeDecodeReady s h.2.1, makeDecodeReady_ready s h.2.2⟩
+  link := fun s h serial link hl o => by
+    have hser := linkOf_spec s serial link hl
+    refine ⟨h.1, ⟨?_, ?_, ?_⟩, ?_⟩
+    · intro _
+      refine ⟨by simp, ?_⟩
+      simp [hser]
+    · intro hh; exact absurd (show STREAMSET > STREAMSET from hh) (by decide)
+    · show STREAMSET ≤ INITSET; decide
+    · show OPENED ≤ STREAMSET; decide
+  take := fun s h n => ⟨h.1, wf_readTake s n h.2.1, h.2.2⟩
+  exec := fun f p s h hnr => ⟨by rw [execPlan_seekable f p s hnr]; exact h.1, wf_execPlan f p s h.2.1 hnr, execPlan_ready f p s h.2.2 hnr⟩
+
+/-- consistent and still the same file as `s0`: what `ov_open` fixed is untouched -/
+def J (s0 : VF) (s : VF) : Prop := SInv s ∧ SameFile s0 s
+
+theorem same_makeDecodeReady (s : VF) : SameFile s (makeDecodeReady.run s).2 := by
+  unfold makeDecodeReady
+  simp only [StateT.run, bind, StateT.bind, get, getThe, MonadStateOf.get, StateT.get, pure, StateT.pure, set, StateT.set]
+  split
+  · exact sameFile_refl s
+  · split
+    · exact sameFile_refl s
+    · exact ⟨rfl, rfl, rfl, rfl, rfl, rfl, rfl, rfl⟩
+
+theorem same_execPlan (f : Int → M Int) (p : SeekPlan) (s : VF) (hnr : ∀ l c o r, p ≠ .viaRaw l c o r) :
+    SameFile s ((execPlan f p).run s).2 := by
+  cases p with
+  | viaRaw l c o r => exact absurd rfl (hnr l c o r)
+  | fail rc c => exact (failing_plan_same f _ s (Or.inl ⟨rc, c, rfl⟩)).1
+  | failSel l c o rc => exact (failing_plan_same f _ s (Or.inr ⟨l, c, o, rc, rfl⟩)).1
+  | land l c o po =>
+      have e : (execPlan f (.land l c o po)).run s =
+          (0, { (selectLinkF l { s with offset := c.off, fill := c.fill }) with os := o, pcm_offset := po }) := by
+        simp [execPlan, setCur, selectLink, StateT.run, bind, StateT.bind, modify, modifyGet, MonadStateOf.modifyGet, StateT.modifyGet, pure, StateT.pure]
+      rw [e]
+      unfold selectLinkF
+      split <;> exact ⟨rfl, rfl, rfl, rfl, rfl, rfl, rfl, rfl⟩
+
+theorem jOps (s0 : VF) : InvOps (J s0) where
+  seekable := fun _ h => h.1.1
+  cursor := fun s h o f => ⟨sinvOps.cursor s h.1 o f, sameFile_trans h.2 ⟨rfl, rfl, rfl, rfl, rfl, rfl, rfl, rfl⟩⟩
+  os := fun s h o => ⟨sinvOps.os s h.1 o, sameFile_trans h.2 ⟨rfl, rfl, rfl, rfl, rfl, rfl, rfl, rfl⟩⟩
+  pcmoff := fun s h p => ⟨sinvOps.pcmoff s h.1 p, sameFile_trans h.2 ⟨rfl, rfl, rfl, rfl, rfl, rfl, rfl, rfl⟩⟩
+  vdSome := fun s h d l => ⟨sinvOps.vdSome s h.1 d l, sameFile_trans h.2 ⟨rfl, rfl, rfl, rfl, rfl, rfl, rfl, rfl⟩⟩
+  read := fun s h d p => ⟨sinvOps.read s h.1 d p, sameFile_trans h.2 ⟨rfl, rfl, rfl, rfl, rfl, rfl, rfl, rfl⟩⟩
+  vdKeep := fun s h v hv o p => ⟨sinvOps.vdKeep s h.1 v hv o p, sameFile_trans h.2 ⟨rfl, rfl, rfl, rfl, rfl, rfl, rfl, rfl⟩⟩
+  decodeClear := fun s h => ⟨sinvOps.decodeClear s h.1, sameFile_trans h.2 ⟨rfl, rfl, rfl, rfl, rfl, rfl, rfl, rfl⟩⟩
+  makeReady := fun s h => ⟨sinvOps.makeReady s h.1, sameFile_trans h.2 (same_makeDecodeReady s)⟩
+  link := fun s h serial link hl o => ⟨sinvOps.link s h.1 serial link hl o, sameFile_trans h.2 ⟨rfl, rfl, rfl, rfl, rfl, rfl, rfl, rfl⟩⟩
+  take := fun s h n => ⟨sinvOps.take s h.1 n, sameFile_trans h.2 ⟨rfl, rfl, rfl, rfl, rfl, rfl, rfl, rfl⟩⟩
+  exec := fun f p s h hnr => ⟨sinvOps.exec f p s h.1 hnr, sameFile_trans h.2 (same_execPlan f p s hnr)⟩
 
 /-- states reachable by reads and sample-accurate seeks (whose page search does not fall back to a raw seek) -/
 inductive Reach (ph : Phys) (f : Int → M Int) (s : VF) : VF → Prop
@@ -466,20 +541,20 @@ inductive Reach (ph : Phys) (f : Int → M Int) (s : VF) : VF → Prop
   | seek (t : VF) (pos : Int) : Reach ph f s t → (∀ l c o r, planSeekPage ph t.tab pos ≠ .viaRaw l c o r) →
       Reach ph f s ((pcmSeek ph f pos).run t).2
 
-theorem reach_sinv (ph : Phys) (f : Int → M Int) (s t : VF) (h : Reach ph f s t) (hs : SInv s) : SInv t := by
+theorem reach_inv {I : VF → Prop} (ops : InvOps I) (ph : Phys) (f : Int → M Int) (s t : VF) (h : Reach ph f s t) (hs : I s) : I t := by
   induction h with
   | refl => exact hs
-  | read t n _ ih => exact pres_readFloat ph n t ih
-  | seek t pos _ hnr ih => exact sinv_pcmSeek ph f pos t ih hnr
+  | read t n _ ih => exact pres_readFloat ops ph n t ih
+  | seek t pos _ hnr ih => exact inv_pcmSeek ops ph f pos t ih hnr
 
 /-- a seekable handle without stream state (just opened, or after any failed seek) is consistent -/
-theorem sinv_of_opened (s : VF) (hk : s.seekable = true) (hr : s.ready ≤ OPENED) : SInv s := by
-  refine ⟨hk, ?_, ?_, ?_⟩
-  · intro h; have : OPENED < STREAMSET := by decide
-    omega
-  · intro h; have : OPENED < STREAMSET := by decide
-    omega
-  · have : OPENED ≤ INITSET := by decide
-    omega
+theorem sinv_of_opened (s : VF) (hk : s.seekable = true) (hr : s.ready = OPENED) : SInv s := by
+  have h1 : OPENED < STREAMSET := by decide
+  have h2 : OPENED ≤ INITSET := by decide
+  refine ⟨hk, ⟨?_, ?_, ?_⟩, ?_⟩
+  · intro h; omega
+  · intro h; omega
+  · omega
+  · omega
 
 end Vorbis.Proofs.FileInv
